@@ -52,7 +52,7 @@ fn split_join_body<const N: usize>(s: &SymStr<N>) {
 }
 
 //# {"id":"c11_split_join_ascii3","props":["C11","C18"],"tier":"quick","cap":1200,"bound":"every valid ASCII object class name of length 1..=3; unwind 6","fns":["duke::tree::class::ObjClassNameSlice::{split_inner_class_parent_and_name,get_inner_class_name,get_inner_class_parent}","ObjClassName::from_inner_class"]}
-//# {"id":"c11_split_join_alpha5","props":["C11","C18"],"tier":"thorough","cap":3000,"bound":"every valid object class name of length 1..=5 over the alphabet a b $ / ; unwind 8","fns":["split_inner_class_parent_and_name","from_inner_class"]}
+//# {"id":"c11_split_join_alpha5","props":["C11","C18"],"tier":"quick","cap":900,"bound":"every valid object class name of length 1..=5 over the alphabet a b $ / ; unwind 8","fns":["split_inner_class_parent_and_name","from_inner_class"]}
 //# {"id":"c11_split_join_t5","props":["C11","C18"],"tier":"quick","cap":1200,"bound":"every valid class name of length exactly 5 of the form ?$??? / ??$?? / ???$? with ? over the alphabet a $ / (symbolic): package crossings after the dollar, two dollars; unwind 8","fns":["split_inner_class_parent_and_name","get_inner_class_name","get_inner_class_parent","from_inner_class"]}
 //# {"id":"c11_contract","props":["C11"],"tier":"quick","cap":1200,"bound":"Names<2, ObjClassName> with a valid ASCII name of length 1..=3 (or none) in namespace 1: contraction keeps only the innermost simple name, namespace 0 untouched; unwind 6","fns":["quill::action::extend_inner_class_names::Names::contract_inner_class_name","ObjClassNameSlice::get_inner_class_name"]}
 proofs! {
